@@ -366,6 +366,79 @@ func init() {
 				c06Case(c, c06Replay{Kind: "c06", Depth: dr, Names: nr, Exts: ex, Route: "md", Target: "empty", Pre: map[string]byte{fmt.Sprintf("root%02d", size-1): 'd'}})
 			}
 		}
+		// the size sweep (enum/size.go): every width and depth up to the bound; once with every child of the wide parent
+		// carrying a configured extension (a childless one is a file, one that got a child is a directory), once without
+		upTo, far, deepTo, deepFar := 140, 1030, 130, 260 // (file-system work per case: widths get a smaller every-integer bound here than in C01-C05)
+		if c.Thorough() {
+			upTo, far, deepTo, deepFar = 1100, 2100, 300, 520
+		}
+		c.Bound("size_sweep_width_every_integer_up_to", fmt.Sprint(upTo))
+		c.Bound("size_sweep_depth_every_integer_up_to", fmt.Sprint(deepTo))
+		c.Bound("size_sweep_depth_power_of_two_neighbours_up_to", fmt.Sprint(deepFar))
+		sweep := func(s enum.SizeShape) {
+			if !c.Take() || c.Expired() {
+				return
+			}
+			f := enum.Build(s.D, s.Names)
+			if !distinctRoots(f) {
+				return
+			}
+			c.StateN(1)
+			c.Nontrivial()
+			c.Inc("size_sweep_cases")
+			withExt := make([]string, len(s.Names))
+			for i, nm := range s.Names {
+				withExt[i] = nm
+				if strings.HasPrefix(nm, "c0") || strings.HasPrefix(nm, "c1") || nm == "bk" || strings.HasPrefix(nm, "t") {
+					withExt[i] = nm + ".go"
+				}
+			}
+			routes := []string{"md", "root"}
+			if len(f) != 1 {
+				routes = routes[:1]
+			}
+			route := routes[s.Size%len(routes)]
+			extra := []string{"", "", "massive"}[s.Size%3]
+			c06Case(c, c06Replay{Kind: "c06", Depth: s.D, Names: withExt, Exts: []string{".go"}, Route: "md", Target: "empty"})
+			c06Case(c, c06Replay{Kind: "c06", Depth: s.D, Names: withExt, Exts: []string{".go"}, Route: route, Target: "missing", Extra: extra})
+			c06Case(c, c06Replay{Kind: "c06", Depth: s.D, Names: s.Names, Exts: nil, Route: routes[len(routes)-1], Target: "empty"})
+		}
+		enum.DeepShapes(enum.Sizes(deepTo, deepFar), sweep)
+		enum.WideShapes(enum.Sizes(upTo, far), sweep)
+		enum.TwinShapes(func(s enum.SizeShape) {
+			for _, nm := range s.Names {
+				if strings.ContainsAny(nm, "/") {
+					return
+				}
+			}
+			sweep(s)
+		})
+		// names the shell, printf-style formatting, file managers and version control give a meaning to: they are names like
+		// any other; every forest of up to two nodes, simple and massive
+		special := []string{"%s", "100%.txt", "my%20docs", "%d%%", "a%!b", "%v.md", ".DS_Store", "Thumbs.db", "desktop.ini", ".git", "README.md", "node_modules", "CON", "lost+found", "~", "$HOME", "{}", "{{.}}", "`x`", "a;b", "-rf", "--", "*.go"}
+		for n := 1; n <= 2 && !c.Expired(); n++ {
+			enum.DepthSeqs(n, func(d0 []int) {
+				d := append([]int{}, d0...)
+				enum.Tuples(n, len(special), func(t []int) {
+					names := enum.Pick(special, t)
+					f := enum.Build(d, names)
+					if !distinctRoots(f) || !c.Take() || c.Expired() {
+						return
+					}
+					c.StateN(1)
+					c.Nontrivial()
+					c.Inc("special_name_forests")
+					for _, ex := range [][]string{nil, {".txt", ".md", ".go"}} {
+						c06Case(c, c06Replay{Kind: "c06", Depth: d, Names: names, Exts: ex, Route: "md", Target: "empty"})
+						c06Case(c, c06Replay{Kind: "c06", Depth: d, Names: names, Exts: ex, Route: "md", Target: "empty", Extra: "massive"})
+						if len(f) == 1 {
+							c06Case(c, c06Replay{Kind: "c06", Depth: d, Names: names, Exts: ex, Route: "root", Target: "missing"})
+							c06Case(c, c06Replay{Kind: "c06", Depth: d, Names: names, Exts: ex, Route: "root", Target: "empty", Extra: "massive-nil"})
+						}
+					}
+				})
+			})
+		}
 		// names with multi-byte runes, combining marks, blanks and a 255-byte name (the longest a directory entry may have)
 		uni := []string{"é日本.go", "e\u0301 x", "a", strings.Repeat("長", 85)}
 		for n := 1; n <= 3 && !c.Expired(); n++ {
